@@ -404,8 +404,9 @@ def tie_accelerations(c, rebound, exe):
     for k in ad:
         bad = ad[k].report(c, "search")
         if bad is not None:
-            c.violation("AD:" + k, "reb_calculate_acceleration_var (%s) is not the derivative of the force "
-                        "(forward-mode AD of the Lean force model on Dual Float disagrees, rel %.3g)" % (k, bad["rel"]), bad)
+            c.violation("AD:" + k, "hand-derived variational code (%s: %s) is not the derivative of the force "
+                        "(forward-mode AD of the Lean force model on Dual Float disagrees, rel %.3g)" %
+                        (k, "reb_whfast_interaction_step" if k == "whjac" else "reb_calculate_acceleration_var", bad["rel"]), bad)
     c.cov["tie_N_histogram"] = {str(k): v for k, v in sorted(hist.items())}
 
 
@@ -615,7 +616,7 @@ def search_derivatives(c, rebound):
     if set(defined) != want:
         c.corr_break("derivatives.c defines %d reb_particle_derivative_* functions but the oracle covers %d: %s" %
                      (len(defined), len(want), sorted(set(defined) ^ want)[:6]))
-    ncases = 160 if c.thorough else 40
+    ncases = 400 if c.thorough else 40
     cases = []
     for i in range(ncases):
         rng = c.rng.fork()
@@ -931,7 +932,7 @@ def search_shadow(c, rebound):
     inconclusive = {}
     ncfg = {}
     fails = []
-    nsys = 3 if c.thorough else 1
+    nsys = 8 if c.thorough else 1
     T1 = 10.0
     first_params = CART + ["m_cart"] + ORB + PAL[2:]
 
@@ -1223,16 +1224,24 @@ def run_phase(c, name, fn, timeout):
 
 
 def run(c):
+    if "--replay" in sys.argv:
+        # runs are reproducible from (seed, tier): a replay re-runs the check exactly as it ran when the file was written
+        rp = json.load(open(sys.argv[sys.argv.index("--replay") + 1]))
+        c.seed, c.tier = int(rp.get("seed", 1)), rp.get("tier", "quick")
+        c.rng = SplitMix(c.seed * 1000003 + 16)
+        c.log("replay of", rp.get("key", rp.get("no_longer_checks", ["?"])[0] if isinstance(rp.get("no_longer_checks"), list) else "?"), "seed", c.seed, "tier", c.tier)
     d = build()
     rebound = use_scratch_rebound(d)
     c.prove(["RV.Props.C16"])
     exe = lean_exe("drv_c16")
     c.cov["rule"] = ("tie: random particle sets (N 2..24, masses over 8 decades incl. zero, random G and length scale) with two random "
                      "first-order sets (incl. variational masses), one second-order set and first/second-order single test-particle "
-                     "variations; reb_simulation_update_acceleration is called and every variational acceleration compared bitwise with "
+                     "variations, also with N_active<N (both testparticle types) and gravity_ignore_terms 1/2; "
+                     "reb_simulation_update_acceleration is called and every variational acceleration compared bitwise with "
                      "the Lean Float model and to 1e-12 (scale-aware) with forward-mode AD of the Lean force model on Dual Float / "
-                     "Dual (Dual Float); move_to_com corrections and reb_simulation_rescale_var likewise on random states around the "
-                     "1e100 threshold.  search: 65 derivative constructors vs 60-digit finite differences on random bound orbits "
+                     "Dual (Dual Float); the Jacobi term of reb_whfast_interaction_step, the move_to_com corrections and "
+                     "reb_simulation_rescale_var likewise (rescale: random states around the 1e100 threshold, all orders, lrescale<0, "
+                     "unsynchronised WHFast/EOS, inf/nan components).  search: 65 derivative constructors vs 60-digit finite differences on random bound orbits "
                      "(e 0..0.85, inc 0..2.8, both element families); shadow simulations: regular 2-planet systems (+ test particle), "
                      "every vary() parameter and Cartesian/mass component of every particle, every supported second-order pair, "
                      "cross-particle pairs, single test-particle variations, IAS15/BS/WHFast(/leapfrog), T=10..60, with and without "
@@ -1252,7 +1261,7 @@ def run(c):
     run_phase(c, "tie-accelerations", lambda: tie_accelerations(c, rebound, exe), 120 * big)
     run_phase(c, "tie-com-rescale", lambda: tie_com_rescale(c, rebound, exe), 120 * big)
     run_phase(c, "derivatives", lambda: search_derivatives(c, rebound), 120 * big)
-    run_phase(c, "shadow", lambda: search_shadow(c, rebound), 150 * big)
+    run_phase(c, "shadow", lambda: search_shadow(c, rebound), 150 * (10 if c.thorough else 1))
     run_phase(c, "rescale-megno", lambda: search_rescale_megno(c, rebound), 60 * big)
 
 
